@@ -287,7 +287,7 @@ def rules(ctx, repo, m, meths):
                 # output appended
                 app = None
                 if isinstance(ov, ast.BinOp) and isinstance(ov.op, ast.Add) and unparse(ov.left) == out_attr:
-                    app = ov.right
+                    app = symex.resolve(ov.right, cs.env)    # a local holding the policy call's result
                 cur_ch = 's[%s]' % pos_attr
                 if app is None:
                     bad_out.append('nothing appended to %s' % out_attr)
@@ -322,7 +322,27 @@ def rules(ctx, repo, m, meths):
                        construct='fallback: pass-through range', trivial=True)
     # while header and `continue` after skip
     wh = [w for w in iter_own(u2l) if isinstance(w, ast.While)]
-    ok = len(wh) == 1 and unparse(wh[0].test).replace(' ', '') == 'p.pos<len(s)'
+    ok = False
+    if len(wh) == 1:
+        # the test with locals substituted: <position> < len(<the string scanned>) (the length may
+        # be held in a local computed from the final string)
+        tst_ = wh[0].test
+        try:
+            hc_ = symex.Walker(is_sink=lambda n: n is tst_, sink_types=(ast.Compare,),
+                               pure=('normalize', 'unicode_str', 'str', 'unicode')).run(u2l)
+        except symex.TooManyPaths:
+            hc_ = []
+        svals = set()
+        for cs in hc_:
+            t_ = cs.sub
+            if isinstance(t_, ast.Compare) and len(t_.ops) == 1 and isinstance(t_.ops[0], ast.Lt) and \
+                    unparse(t_.left).endswith('.pos') and isinstance(t_.comparators[0], ast.Call) and \
+                    call_name(t_.comparators[0]) == 'len' and len(t_.comparators[0].args) == 1:
+                cur = symex.subst(ast.Name(id=u2l.args.args[1].arg, ctx=ast.Load()), cs.env)
+                svals.add(unparse(t_.comparators[0].args[0]) == unparse(cur))
+            else:
+                svals.add(False)
+        ok = svals == {True}
     ctx.decide('R04b', ok, m, wh[0] if wh else u2l, 'loop runs while p.pos < len(s)',
                'the main loop is not `while p.pos < len(s)`', construct='main loop header')
 
@@ -458,8 +478,31 @@ def rules(ctx, repo, m, meths):
     # ------------------------------------------------------------ R04e
     raises = []
     for cname in ('UnicodeToLatexEncoder',):
-        for n, f in m.methods(cname).items():
-            if n == '__init__' or n == '_get_method_fn':
+        allm = m.methods(cname)
+        # construction-time helpers: private methods whose every mention in the class is a call made
+        # from __init__ or from another such helper (never stored as a callback, never called while
+        # encoding); their raises report a bad constructor argument, not an input character
+        mentions = {}
+        for n, f in allm.items():
+            for x in ast.walk(f):
+                if isinstance(x, ast.Attribute) and isinstance(x.value, ast.Name) and x.value.id == 'self' \
+                        and x.attr in allm and isinstance(x.ctx, ast.Load):
+                    par = getattr(x, '_parent', None)
+                    called = isinstance(par, ast.Call) and par.func is x
+                    mentions.setdefault(x.attr, []).append((n, called))
+        ctor_only = {'__init__', '_get_method_fn'}
+        changed = True
+        while changed:
+            changed = False
+            for n in allm:
+                if n in ctor_only or not n.startswith('_') or n.startswith('__') or not mentions.get(n):
+                    continue
+                if all(called and src in ctor_only for src, called in mentions[n]):
+                    ctor_only.add(n)
+                    changed = True
+        ctx.analysed['constructor_only_methods'] = sorted(ctor_only)
+        for n, f in allm.items():
+            if n in ctor_only:
                 continue
             for r in iter_own(f):
                 if isinstance(r, ast.Raise):
@@ -569,7 +612,27 @@ def nfc_whole_input(ctx, rule, m, u2l):
     lens = [c_ for c_ in ast.walk(wh_[0].test) if isinstance(c_, ast.Call) and call_name(c_) == 'len' and c_.args
             and isinstance(c_.args[0], ast.Name)]
     if not lens:
-        ctx.unknown(rule, m, wh_[0], 'the loop does not compare with len(<string>)', construct='NFC normalisation')
+        # the bound is held in a local: its value at the loop header, locals substituted, must be
+        # the length of the normalised string
+        tst = wh_[0].test
+        try:
+            hc = symex.Walker(is_sink=lambda n: n is tst, sink_types=(ast.Compare,),
+                              pure=('normalize', 'unicode_str', 'str', 'unicode')).run(u2l)
+        except symex.TooManyPaths as e:
+            hc = []
+        bounds = [c_ for cs in hc for c_ in ast.walk(cs.sub) if isinstance(c_, ast.Call) and call_name(c_) == 'len'
+                  and c_.args]
+        if not bounds:
+            ctx.unknown(rule, m, wh_[0], 'the loop does not compare with len(<string>)', construct='NFC normalisation')
+            return
+        badb = [b for b in bounds if not (isinstance(b.args[0], ast.Call) and call_name(b.args[0]) == 'normalize'
+                                          and len(b.args[0].args) == 2 and isinstance(b.args[0].args[0], ast.Constant)
+                                          and b.args[0].args[0].value == 'NFC')]
+        ctx.decide(rule, not badb, m, wh_[0], 'the loop bound is the length of the normalised string',
+                   'the main loop is bounded by %s, the length of the string BEFORE unicodedata.normalize(\'NFC\', ..): '
+                   'when normalisation changes the length (decomposed accents) the loop reads past the end of the '
+                   'normalised string (IndexError) or stops before its end' % (short(badb[0], 80) if badb else ''),
+                   construct='NFC normalisation: loop bound')
         return
     svar = lens[0].args[0]
     param = u2l.args.args[1].arg
